@@ -201,6 +201,11 @@ func (p *provRunner) ownerOf(c string) string {
 }
 
 func (p *provRunner) genOne(r *Rng, prof provProfile) string {
+	if len(p.script) > 0 {
+		s := p.script[0]
+		p.script = p.script[1:]
+		return s
+	}
 	ws := []int{prof.wCreate, prof.wUpdate, prof.wRemove, prof.wOpt, prof.wAssign, prof.wStake, prof.wBlock, prof.wChan, prof.wSlash, prof.wMisc, prof.wParams, prof.wVal, prof.wInfr, prof.wReward, prof.wEvid}
 	switch pickWeighted(r, ws) {
 	case 0: // create
@@ -219,6 +224,13 @@ func (p *provRunner) genOne(r *Rng, prof provProfile) string {
 			}
 			if prof.conns > 0 && r.chance(35) {
 				k := r.intn(prof.conns)
+				// often the connection a STOPPED consumer was launched on (its client is still bound until deletion)
+				for _, id := range p.consumerIds() {
+					if c := p.prev[id]["conn"]; p.prev[id]["phase"] == "4" && strings.HasPrefix(c, "connection-90") && r.chance(50) {
+						fmt.Sscanf(c, "connection-%d", &k)
+						k -= 900
+					}
+				}
 				s += fmt.Sprintf(" conn=connection-%d", 900+k)
 				if r.chance(85) {
 					// the chain id must match the chain id of the connection's client for the launch to succeed
@@ -342,6 +354,13 @@ func (p *provRunner) genOne(r *Rng, prof provProfile) string {
 			}
 			return fmt.Sprintf("stkjail v=%d", v)
 		case 1:
+			// prefer a validator that is actually jailed (and not tombstoned)
+			for _, se := range splitNE(p.prevG["stk"]) {
+				sf := strings.Split(se, ":")
+				if len(sf) >= 6 && sf[3] == "1" && sf[5] == "0" && r.chance(60) {
+					return fmt.Sprintf("stkunjail v=%s", sf[0])
+				}
+			}
 			return fmt.Sprintf("stkunjail v=%d", v)
 		case 2:
 			return "stkend"
@@ -537,7 +556,8 @@ func (p *provRunner) genChan(r *Rng, prof provProfile) string {
 	case 2:
 		cport = "provider"
 	case 3:
-		ver = "2"
+		// unsupported versions, including the empty and the all-blank one ("_" stands for a space)
+		ver = []string{"2", "", "__", "1_", "11"}[r.intn(5)]
 	case 4:
 		hops = conn + "," + conn
 	case 5:
@@ -598,9 +618,45 @@ func (p *provRunner) genSlash(r *Rng, prof provProfile) string {
 			}
 		}
 	}
+	// validators of this consumer's set that can still be jailed
+	var jailable []int
+	for _, e := range splitNE(st["valset"]) {
+		f := strings.Split(e, ":")
+		if len(f) != 4 {
+			continue
+		}
+		for _, se := range splitNE(p.prevG["stk"]) {
+			sf := strings.Split(se, ":")
+			if len(sf) >= 6 && sf[0] == f[0] && sf[2] != "1" && sf[3] == "0" && sf[5] == "0" {
+				k, _ := strconv.Atoi(f[1])
+				jailable = append(jailable, k)
+			}
+		}
+	}
+	// directed: make a validator of this set drop out of the bonded set (status unbonding, not jailed,
+	// still in the consumer's set until the next epoch) and report it for downtime right away
+	if len(jailable) > 0 && r.chance(10) && p.unjailedCount() > 2 {
+		k := jailable[r.intn(len(jailable))]
+		for _, e := range splitNE(st["valset"]) {
+			f := strings.Split(e, ":")
+			if len(f) == 4 && f[1] == strconv.Itoa(k) {
+				p.chanSeq++
+				vscid, _ := strconv.ParseInt(p.prevG["vscid"], 10, 64)
+				vsc := int64(0)
+				if vscid > 1 {
+					vsc = vscid - 1
+				}
+				p.script = append(p.script, "stkend",
+					fmt.Sprintf("recvslash ch=%s key=%d power=%d vsc=%d inf=dt seq=%d", ch[0], k, 1+r.intn(3), vsc, p.chanSeq))
+				return fmt.Sprintf("stk v=%s tokens=%d", f[0], 1+r.i64n(999998))
+			}
+		}
+	}
 	key := r.intn(prof.nv + prof.nvExtra)
 	if len(leaving) > 0 && r.chance(45) {
 		key = leaving[r.intn(len(leaving))]
+	} else if len(jailable) > 0 && r.chance(55) {
+		key = jailable[r.intn(len(jailable))]
 	} else if len(keys) > 0 && r.chance(75) {
 		key = keys[r.intn(len(keys))]
 	} else if r.chance(40) {
@@ -682,7 +738,14 @@ func genProv(prof provProfile) func(r *Rng, run Runner, n int, tier string) {
 				}
 				run.Do(cr)
 				run.Do(fmt.Sprintf("optin v=%d c=%d key=- signer=%d", i%prof.nv, i, i%prof.nv))
-				if r.chance(50) {
+				if prof.wSlash > 0 {
+					// slash streams: every validator validates the consumer, so that downtime reports find somebody to jail
+					for v := 0; v < prof.nv; v++ {
+						if v != i%prof.nv {
+							run.Do(fmt.Sprintf("optin v=%d c=%d key=- signer=%d", v, i, v))
+						}
+					}
+				} else if r.chance(50) {
 					v2 := (i + 1) % prof.nv
 					run.Do(fmt.Sprintf("optin v=%d c=%d key=- signer=%d", v2, i, v2))
 				}
@@ -734,9 +797,9 @@ func init() {
 	hs := provProfile{name: "handshake", nv: 4, maxvals: 4, M: 3, epoch: 2, unb: 10 * sec, conns: 2,
 		wCreate: 14, wUpdate: 10, wRemove: 5, wOpt: 18, wAssign: 2, wStake: 4, wBlock: 22, wChan: 25, topn: false}
 	streams["handshake"] = StreamDef{New: func(t *Trace) Runner { return newProvRunner(t) }, Gen: genProv(hs)}
-	sl := provProfile{name: "slash", nv: 5, nvExtra: 1, maxvals: 4, M: 4, epoch: 3, unb: 15 * sec, keyPool: 5, lowPower: true,
+	sl := provProfile{name: "slash", nv: 5, nvExtra: 1, maxvals: 4, M: 4, epoch: 3, unb: 15 * sec, keyPool: 5, lowPower: true, prelaunch: 3,
 		replenish: 8 * sec, frac: "0.300000000000000000",
-		wCreate: 5, wUpdate: 5, wRemove: 2, wOpt: 16, wAssign: 10, wStake: 10, wBlock: 26, wChan: 10, wSlash: 30, wVal: 2}
+		wCreate: 4, wUpdate: 4, wRemove: 2, wOpt: 12, wAssign: 8, wStake: 22, wBlock: 26, wChan: 10, wSlash: 36, wVal: 2}
 	streams["slash"] = StreamDef{New: func(t *Trace) Runner { return newProvRunner(t) }, Gen: genProv(sl)}
 	keys := provProfile{name: "keys", nv: 4, nvExtra: 2, maxvals: 5, M: 4, epoch: 2, unb: 12 * sec, keyPool: 5,
 		wCreate: 5, wUpdate: 4, wRemove: 3, wOpt: 14, wAssign: 34, wStake: 3, wBlock: 22, wVal: 9}
